@@ -726,12 +726,24 @@ impl Interp {
                 }
             }
             Event::DiskLag { node, ms } => {
-                let id = self.node_by_index(*node);
-                if let Some(n) = self.w.nodes.get(&id) {
-                    n.persistent.disk.set_lag_ms(*ms as u64);
-                    self.w.fault(format!("disk lag node {id} = {ms}ms"));
+                if *node >= 0xC000 {
+                    // a quarter of the events slows every disk down (shared storage hiccup)
+                    for n in self.w.nodes.values() {
+                        n.persistent.disk.set_lag_ms(*ms as u64);
+                    }
+                    self.w.fault(format!("disk lag on all nodes = {ms}ms"));
                     if *ms > 0 {
                         self.res.labels.insert("disk_lag".into());
+                        self.res.labels.insert("disk_lag_all".into());
+                    }
+                } else {
+                    let id = self.node_by_index(*node);
+                    if let Some(n) = self.w.nodes.get(&id) {
+                        n.persistent.disk.set_lag_ms(*ms as u64);
+                        self.w.fault(format!("disk lag node {id} = {ms}ms"));
+                        if *ms > 0 {
+                            self.res.labels.insert("disk_lag".into());
+                        }
                     }
                 }
             }
